@@ -1,4 +1,5 @@
 import GapicModel.Model.Rest
+import GapicModel.Pinned.Funcs
 /-
 C04 — REST calls transcode each request exactly as its google.api.http rule prescribes (DESIGN §7.4).
 
@@ -1042,4 +1043,106 @@ theorem body_rename_regression :
       .ok ⟨§"post", §"/v1/things/7", some [⟨[§"title"], [§"t"]⟩], []⟩ := by decide +kernel
 
 end Examples
+section Translated
+open GapicModel.PyRt
+
+/-- `fixSeg` IS the code's current `_fix_name_segment` (translated from gapic/utils/uri_conv.py on every run) -/
+theorem fixSeg_is_translated (s : List Char) : fixSeg s = Pinned.Funcs.fix_name_segment s := by
+  unfold fixSeg Pinned.Funcs.fix_name_segment strIn reserved
+  by_cases h : s ∈ Pinned.reservedNames.map String.toList
+  · simp [h]
+  · simp [h]
+
+theorem joinWith_is_join (c : Char) (xs : List (List Char)) : joinWith c xs = join [c] xs := by
+  induction xs with
+  | nil => rfl
+  | cons a r ih =>
+    cases r with
+    | nil => rfl
+    | cons b r' => simp only [joinWith, join, ih]; simp
+
+theorem splitAux_splitOn (c : Char) (s : List Char) :
+    ∀ (cur h : List Char) (t : List (List Char)), splitOn c s = h :: t →
+      splitAux [c] 0 cur s = (cur.reverse ++ h) :: t := by
+  induction s with
+  | nil =>
+    intro cur h t he
+    simp [splitOn] at he
+    simp [splitAux, he.1, he.2]
+  | cons d ds ih =>
+    intro cur h t he
+    simp only [splitOn] at he
+    by_cases hd : d = c
+    · subst hd
+      simp only [if_true] at he
+      simp at he
+      obtain ⟨h', t', he'⟩ := List.exists_cons_of_ne_nil (show splitOn d ds ≠ [] by
+        cases ds with
+        | nil => simp [splitOn]
+        | cons x xs => simp only [splitOn]; split <;> (try split) <;> simp)
+      have := ih [] h' t' he'
+      simp only [splitAux, List.isPrefixOf, beq_self_eq_true, Bool.true_and, if_true, List.length_singleton, Nat.sub_self]
+      obtain ⟨rfl, rfl⟩ := he
+      rw [this, he']
+      simp
+    · simp only [hd, if_false] at he
+      obtain ⟨h', t', he'⟩ := List.exists_cons_of_ne_nil (show splitOn c ds ≠ [] by
+        cases ds with
+        | nil => simp [splitOn]
+        | cons x xs => simp only [splitOn]; split <;> (try split) <;> simp)
+      rw [he'] at he
+      simp at he
+      have := ih (d :: cur) h' t' he'
+      have hne : (c == d) = false := by simp [beq_eq_false_iff_ne]; exact fun e => hd e.symm
+      simp only [splitAux, List.isPrefixOf, hne, Bool.false_and]
+      simp only [Bool.false_eq_true, if_false]
+      obtain ⟨rfl, rfl⟩ := he
+      rw [this]
+      simp
+
+theorem splitOn_is_split (c : Char) (s : List Char) : splitOn c s = split s [c] := by
+  obtain ⟨h, t, he⟩ := List.exists_cons_of_ne_nil (show splitOn c s ≠ [] by
+    cases s with
+    | nil => simp [splitOn]
+    | cons x xs => simp only [splitOn]; split <;> (try split) <;> simp)
+  unfold split
+  rw [splitAux_splitOn c s [] h t he, he]
+  simp
+
+/-- `fixFieldPath` IS the code's current `_fix_field_path` -/
+theorem fixFieldPath_is_translated (p : List Char) : fixFieldPath p = Pinned.Funcs.fix_field_path p := by
+  unfold fixFieldPath Pinned.Funcs.fix_field_path
+  rw [joinWith_is_join, splitOn_is_split]
+  congr 1
+  apply List.map_congr_left
+  intro x _
+  exact fixSeg_is_translated x
+
+/-! `camelKey` vs the translated `to_camel_case`: the general statement (`LowerSnake n → camelKey n = to_camel_case n`)
+needs "none of the four `re.sub` patterns of `to_snake_case` matches a string without capitals" and "`re.split('[_-]')` is
+`split('_')` without `-`", i.e. reasoning about the regex engine's `subLoop`/`reSplitAux`; not done.  What IS proved: the
+two agree on every field name the C04 generator uses and on every lower-case reserved word, after `Field.name`
+disambiguation (kernel evaluation of the translated function, regex engine included); `camel_eq_json` then gives the JSON
+name.  T2 compares `camelKey` with the real function on random lower snake_case names on every run. -/
+
+local macro "§" s:str : term => do
+  let elems := s.getString.toList.toArray.map fun c => Lean.Syntax.mkCharLit c
+  `([$elems,*])
+
+/-- the field names of the C04 generator's pools (harness/props/c04.py) and of the corpus -/
+def genNames : List (List Char) := [§"filter", §"page_size", §"force", §"ratio", §"weight", §"count64", §"ucount", §"big", §"sf", §"sf64",
+  §"f32", §"f64", §"si", §"si64", §"blob", §"order_by", §"format", §"max", §"in", §"view", §"tags", §"nums", §"kinds", §"list", §"author",
+  §"update_mask", §"read_time", §"ttl", §"limit", §"strict", §"note", §"opt_s", §"opt_n", §"labels", §"chapters", §"meta", §"choice_a",
+  §"choice_b", §"name", §"parent", §"shelf_id", §"book_id", §"class", §"type", §"import", §"rev", §"uid", §"book", §"item", §"object",
+  §"payload", §"allow_missing", §"validate_only", §"alt", §"mask", §"id", §"q"]
+
+theorem camelKey_is_translated_on_generated_names :
+    ∀ n ∈ genNames, camelKey (fixSeg n) = Pinned.Funcs.to_camel_case (fixSeg n) := by decide +kernel
+
+theorem camelKey_is_translated_on_reserved_words :
+    ∀ w ∈ reserved, (w.all fun c => c == '_' || c.isLower || c.isDigit) = true →
+      camelKey (fixSeg w) = Pinned.Funcs.to_camel_case (fixSeg w) := by decide +kernel
+
+end Translated
+
 end GapicModel.Props.C04
